@@ -350,3 +350,128 @@ func runC14(tb stat.TB, c c14Case) {
 var propC14 = defProp("C14", "TestC14", genC14, runC14)
 
 func TestC14(t *testing.T) { propC14.Test(t) }
+
+// ---- concurrent phase: replies must stay well-formed (and READ data must be the requested file's) when calls overlap
+
+type c14CCase struct {
+	Clients [][]c14Req `json:"clients"`
+}
+
+func genC14C(t *rapid.T) c14CCase {
+	var c c14CCase
+	nc := rapid.IntRange(2, 6).Draw(t, "nclients")
+	for i := 0; i < nc; i++ {
+		var rs []c14Req
+		n := rapid.IntRange(5, 40).Draw(t, "n")
+		for j := 0; j < n; j++ {
+			rs = append(rs, c14Req{Prog: nfsx.ProgNFS, Vers: 3, Proc: pick(t, "proc", uint32(nfsx.ProcRead), nfsx.ProcRead, nfsx.ProcRead, nfsx.ProcGetattr, nfsx.ProcLookup, nfsx.ProcReaddir, nfsx.ProcReaddirplus, nfsx.ProcAccess, nfsx.ProcReadlink, nfsx.ProcFsinfo, nfsx.ProcWrite),
+				Var: rapid.IntRange(0, 5).Draw(t, "var"), Shape: "ok"})
+		}
+		c.Clients = append(c.Clients, rs)
+	}
+	return c
+}
+
+func runC14C(tb stat.TB, c c14CCase) {
+	const id, check = "C14", "TestC14Concurrent"
+	v := vfs.New()
+	sizes := []int{777, 8224, 100, 0, 4096, 33}
+	for i, sz := range sizes {
+		b := make([]byte, sz)
+		for j := range b {
+			b[j] = byte(i + 1)
+		}
+		v.SeedFile(fmt.Sprintf("/r%d", i), 0644, 0, 0, b)
+	}
+	v.SeedSymlink("/l", "r0", 0, 0)
+	s := newSession(tb, v, absnfs.ExportOptions{AttrCacheTimeout: time.Hour, AttrCacheSize: 100, TransferSize: 65536, MaxWorkers: 4})
+	defer s.close()
+	root := s.e.MustMount(tb)
+	var fhs [][]byte
+	for i := range sizes {
+		r, err := s.e.NFS3(drv.Root(), nfsx.ProcLookup, nfsx.ArgsDirop(root, fmt.Sprintf("r%d", i)))
+		if err != nil || r.Status != nfsx.OK {
+			tb.Fatalf("harness: setup lookup: %v", err)
+		}
+		fhs = append(fhs, r.Fh)
+	}
+	lr, err := s.e.NFS3(drv.Root(), nfsx.ProcLookup, nfsx.ArgsDirop(root, "l"))
+	if err != nil || lr.Status != nfsx.OK {
+		tb.Fatalf("harness: setup lookup l: %v", err)
+	}
+	var mu sync.Mutex
+	var firstSig, firstMsg string
+	var wg sync.WaitGroup
+	for ci, reqs := range c.Clients {
+		wg.Add(1)
+		go func(ci int, reqs []c14Req) {
+			defer wg.Done()
+			for _, r := range reqs {
+				fi := (r.Var + ci) % len(sizes)
+				var args []byte
+				switch r.Proc {
+				case nfsx.ProcRead:
+					args = nfsx.ArgsRead(fhs[fi], 0, 65536)
+				case nfsx.ProcWrite:
+					if sizes[fi] == 0 {
+						fi = 0 // never grow the empty file: its READs are judged by size
+					}
+					args = nfsx.ArgsWrite(fhs[fi], 0, 1, nfsx.FileSync, []byte{byte(fi + 1)})
+				case nfsx.ProcGetattr, nfsx.ProcAccess, nfsx.ProcFsinfo:
+					args = nfsx.ArgsFh(fhs[fi])
+					if r.Proc == nfsx.ProcAccess {
+						args = nfsx.ArgsAccess(fhs[fi], 0x3f)
+					}
+				case nfsx.ProcLookup:
+					args = nfsx.ArgsDirop(root, fmt.Sprintf("r%d", fi))
+				case nfsx.ProcReaddir:
+					args = nfsx.ArgsReaddir(root, 0, [8]byte{}, 4096)
+				case nfsx.ProcReaddirplus:
+					args = nfsx.ArgsReaddirplus(root, 0, [8]byte{}, 4096, 8192)
+				case nfsx.ProcReadlink:
+					args = nfsx.ArgsFh(lr.Fh)
+				}
+				xid := s.e.NextXid()
+				wire, err := s.e.CallWire(drv.Root(), nfsx.Call(xid, r.Prog, r.Vers, r.Proc, drv.Root().Cred, nfsx.AuthNone(), args))
+				if err != nil {
+					continue
+				}
+				sig, msg, _ := c14Judge(wire, xid, r)
+				if sig == "" && r.Proc == nfsx.ProcRead {
+					if rp, perr := nfsx.ParseReply(wire); perr == nil {
+						if res, derr := nfsx.DecodeNFS3(nfsx.ProcRead, rp.Body); derr == nil && res.Status == nfsx.OK {
+							if len(res.Data) != sizes[fi] || (len(res.Data) > 0 && (res.Data[0] != byte(fi+1) || res.Data[len(res.Data)-1] != byte(fi+1))) {
+								sig, msg = "read-reply-carries-another-requests-data", fmt.Sprintf("READ of r%d (%d bytes of %#x) returned %d bytes starting with %#x", fi, sizes[fi], fi+1, len(res.Data), first(res.Data))
+							}
+						}
+					}
+				}
+				if sig != "" {
+					mu.Lock()
+					if firstSig == "" {
+						firstSig, firstMsg = sig, msg
+					}
+					mu.Unlock()
+					return
+				}
+			}
+		}(ci, reqs)
+	}
+	wg.Wait()
+	if firstSig != "" {
+		stat.Violate(tb, id, check, firstSig, c, "[concurrent clients] %s", firstMsg)
+		return
+	}
+	stat.Case(c, true)
+}
+
+func first(b []byte) byte {
+	if len(b) == 0 {
+		return 0
+	}
+	return b[0]
+}
+
+var propC14C = defProp("C14", "TestC14Concurrent", genC14C, runC14C)
+
+func TestC14Concurrent(t *testing.T) { propC14C.Test(t) }
